@@ -19,6 +19,7 @@ must agree with the exact values to rtol 1e-9; gradients (no theorem — corresp
 implementation w.r.t. every raw parameter vs autograd of an independent dense torch re-expression
 (rtol 1e-6) and vs central finite differences of that re-expression (rtol 1e-4).
 """
+import contextlib
 import math
 import os
 import warnings
@@ -274,9 +275,15 @@ def dense_parts(w):
     m = out.mean
     y = w.train_y
     if isinstance(out, gpytorch.distributions.MultitaskMultivariateNormal):
-        m = m.reshape(*m.shape[:-2], -1)      # interleaved flat index: point·t + task
-        y = y.reshape(*y.shape[:-2], -1)
-    S = Mz.noise_dense(w)
+        if out._interleaved:
+            m = m.reshape(*m.shape[:-2], -1)      # interleaved flat index: point·t + task
+            y = y.reshape(*y.shape[:-2], -1)
+        else:                                     # task-major flat index: task·n + point
+            m = m.transpose(-1, -2).reshape(*m.shape[:-2], -1)
+            y = y.transpose(-1, -2).reshape(*y.shape[:-2], -1)
+        if out._interleaved != getattr(w, "il", True):
+            raise RuntimeError("model returned a layout other than the configured one")
+    S = Mz.noise_dense(w, getattr(w, "call_noise", None))
     A = K + S
     # kernel evaluations are symmetric only up to rounding (1e-16); the certified LDL^T needs exact symmetry
     A = (A + A.transpose(-1, -2)) / 2
@@ -315,6 +322,7 @@ def reduce_terms(terms, batch):
 def dense_value(w):
     """Independent dense torch re-expression of the property's formula, per batch element (with graph)."""
     import torch
+    from props import _c02models as Mz
     out, A, m, y = dense_parts(w)
     r = (y - m)
     B = torch.broadcast_shapes(A.shape[:-2], r.shape[:-1])
@@ -325,7 +333,7 @@ def dense_value(w):
     logdet = torch.linalg.slogdet(A)[1]
     val = -0.5 * (quad + logdet + N * LOG2PI)
     val = val + reduce_terms(prior_terms(w), tuple(B))
-    added = [t.loss() for t in w.model.added_loss_terms()]
+    added = [t.loss() for t in Mz.registered_added_loss_terms(w.model)]
     val = val + reduce_terms(added, tuple(B))
     return val / N
 
@@ -404,6 +412,92 @@ def _spec_shape(w, terms):
     if k and w.cfg["batch"] != "model":
         return [t.reshape((1,) * k + tuple(t.shape)) for t in terms]
     return terms
+
+
+def check_added_registrations(case, w):
+    """`model.added_loss_terms()` must enumerate every registered added-loss term exactly once, wherever the registering
+    module sits in the module tree (also below torch containers such as the ModuleList of a sum / product kernel)."""
+    from props import _c02models as Mz
+    want = Mz.registered_added_loss_terms(w.model)
+    got = list(w.model.added_loss_terms())
+    case.notes["added_loss_registrations"] = case.notes.get("added_loss_registrations", 0) + len(want)
+    if sorted(id(t) for t in got) != sorted(id(t) for t in want):
+        key = "added-loss:registration-dropped" if len(got) < len(want) else "added-loss:registration-repeated"
+        case.fail(key, f"model.added_loss_terms() yields {len(got)} terms; {len(want)} are registered in the module tree "
+                       f"(covar_module nesting: {w.cfg.get('nest', '-')})")
+
+
+def added_dropped_shift(w):
+    """-(added-loss terms that model.added_loss_terms() does not yield), per batch element, divided by N."""
+    import torch
+    from props import _c02models as Mz
+    got = {id(t) for t in w.model.added_loss_terms()}
+    miss = [t for t in Mz.registered_added_loss_terms(w.model) if id(t) not in got]
+    with torch.no_grad():
+        terms = [-t.loss() for t in miss]
+    return reduce_terms(terms, tuple(w.batch)) / w.N, len(miss)
+
+
+def apply_history(w, mll, cfg):
+    """op-then-use: use the model and the objective once (value + backward, an eval-mode prediction that fills the
+    prediction caches), then change state through the public API; the objective object is the one built before."""
+    import torch
+    import gpytorch
+    ops = cfg.get("history") or []
+    if not ops:
+        return
+    gen = torch.Generator().manual_seed(cfg["seed"] ^ 0x77)
+    model, lik = w.model, w.lik
+    try:
+        v = mll(model(*model.train_inputs), w.train_y)
+        v.sum().backward()
+    except Exception:
+        pass      # reported (with its key) by the measured evaluation below
+    model.zero_grad()
+    model.eval()
+    lik.eval()
+    try:
+        with torch.no_grad():
+            tx = model.train_inputs[0][..., :1, :] + 0.1
+            lik(model(tx))
+    except Exception:
+        pass      # the eval-mode prediction only warms the caches; its own failures are C01's / linear_operator's subject
+    model.train()
+    lik.train()
+
+    def perturbed(p):
+        return p.detach() + 0.3 * torch.randn(p.shape, generator=gen, dtype=torch.float64)
+    for op in ops:
+        if op == "raw":
+            with torch.no_grad():
+                for _n, p in model.named_parameters():
+                    if p.numel():
+                        p.copy_(perturbed(p))
+        elif op == "load_state_dict":
+            sd = model.state_dict()
+            names = {n for n, _ in model.named_parameters()}
+            for k in list(sd):
+                if k in names and sd[k].numel():
+                    sd[k] = perturbed(sd[k])
+            model.load_state_dict(sd)
+        elif op == "partial_state_dict":
+            names = [n for n, p in model.named_parameters() if p.numel()]
+            k = names[int(torch.randint(0, len(names), (1,), generator=gen))]
+            model.load_state_dict({k: perturbed(dict(model.named_parameters())[k])}, strict=False)
+        elif op == "setter":
+            for mod in model.modules():
+                if getattr(mod, "has_lengthscale", False) and isinstance(mod, gpytorch.kernels.Kernel):
+                    mod.lengthscale = 0.6 + 1.4 * torch.rand(mod.lengthscale.shape, generator=gen, dtype=torch.float64)
+                if isinstance(mod, gpytorch.kernels.ScaleKernel):
+                    mod.outputscale = 0.5 + 1.5 * torch.rand(mod.outputscale.shape, generator=gen, dtype=torch.float64)
+                if type(mod).__name__ == "HomoskedasticNoise":
+                    mod.noise = 0.05 + 0.4 * torch.rand(mod.noise.shape, generator=gen, dtype=torch.float64)
+        elif op == "targets":
+            new_y = -1.5 + 3.0 * torch.rand(w.train_y.shape, generator=gen, dtype=torch.float64)
+            model.set_train_data(targets=new_y, strict=False)
+            w.train_y = new_y
+        else:
+            raise ValueError(op)
 
 
 def check_registrations(case, w):
@@ -491,10 +585,20 @@ def run_mll(cfg, do_grad=True):
     with warnings.catch_warnings():
         warnings.simplefilter("ignore")
         mll = gpytorch.mlls.ExactMarginalLogLikelihood(w.lik, w.model)
+        apply_history(w, mll, cfg)
+        w.kw = {}
+        if cfg.get("call_noise"):      # call-time noise through the objective's **kwargs
+            g2 = torch.Generator().manual_seed(cfg["seed"] ^ 0x99)
+            w.call_noise = 0.05 + 0.5 * torch.rand(*w.batch, cfg["n"], generator=g2, dtype=torch.float64)
+            w.kw = {"noise": w.call_noise}
+        lazy_ctx = (lambda: gpytorch.settings.lazily_evaluate_kernels(False)) if cfg.get("lazy") is False \
+            else (lambda: contextlib.nullcontext())
+        y_before = w.train_y.clone()
+        p_before = [p.detach().clone() for p in w.model.parameters()]
         with torch.no_grad():
             out, A, m, y = dense_parts(w)
             pri = prior_terms(w)
-            add = [t.loss() for t in w.model.added_loss_terms()]
+            add = [t.loss() for t in Mz.registered_added_loss_terms(w.model)]
             cond = float(torch.linalg.cond(A).max())
             if not cond < 1e6:
                 case.discard = "cond>1e6"
@@ -503,10 +607,11 @@ def run_mll(cfg, do_grad=True):
             for path in ("default", "exact"):
                 try:
                     if path == "exact":
-                        with gpytorch.settings.fast_computations(log_prob=False):
-                            impl[path] = mll(w.model(*w.model.train_inputs), w.train_y)
+                        with gpytorch.settings.fast_computations(log_prob=False), lazy_ctx():
+                            impl[path] = mll(w.model(*w.model.train_inputs), w.train_y, **w.kw)
                     else:
-                        impl[path] = mll(w.model(*w.model.train_inputs), w.train_y)
+                        with lazy_ctx():
+                            impl[path] = mll(w.model(*w.model.train_inputs), w.train_y, **w.kw)
                 except Exception as e:
                     if bsites and isinstance(e, RuntimeError) and cfg["b"] != cfg["t"] and "must match the size" in str(e):
                         case.fail(FINDING2_PREFIX + "task_noises:raises",
@@ -519,7 +624,11 @@ def run_mll(cfg, do_grad=True):
         shift = finding_shift(w)
         tshift, tsites = twice_shift(w)
         dshift, downers = dropped_shift(w)
+        ashift, amiss = added_dropped_shift(w)
         check_registrations(case, w)
+        check_added_registrations(case, w)
+        if not torch.equal(w.train_y, y_before) or any(not torch.equal(p.detach(), q) for p, q in zip(w.model.parameters(), p_before)):
+            case.fail(f"mll-mutates-input:{tag}", "evaluating the objective changed the targets or a parameter in place")
         # ---- gradients (correspondence only)
         grads = None
         if do_grad and len(impl) == 2:
@@ -546,6 +655,12 @@ def run_mll(cfg, do_grad=True):
                                   f"mll{list(bi)} = {got!r}; dense definition {ex!r}; the prior on `{site}` is added "
                                   f"{'twice' } because Module.named_priors() yields it once per attribute path of its "
                                   f"module (likelihood and covar_module.likelihood): {ex + float(tshift[bi] if tshift.dim() else tshift)!r}")
+                    continue
+                if amiss and _close(got, ex + float(ashift[bi] if ashift.dim() else ashift), 1e-9, cond=cond):
+                    case.fail("added-loss-dropped",
+                              f"mll{list(bi)} = {got!r}; dense definition (every registered added-loss term counted) {ex!r}; "
+                              f"the implementation omits {amiss} registered added-loss term(s) — covar_module nesting "
+                              f"`{cfg.get('nest', '-')}`: the registering module is reachable only through a torch container")
                     continue
                 if downers and _close(got, ex + float(dshift[bi] if dshift.dim() else dshift), 1e-9, cond=cond):
                     case.fail("prior-dropped:shared-instance" if len({id(p) for p in w.prior_objs}) < len(w.prior_objs)
@@ -579,7 +694,7 @@ def gradient_check(case, w, mll, tag, fsites):
     params = [(n, p) for n, p in w.model.named_parameters()]
     names = [n for n, _ in params]
     ps = [p for _, p in params]
-    v_impl = mll(w.model(*w.model.train_inputs), w.train_y).sum()
+    v_impl = mll(w.model(*w.model.train_inputs), w.train_y, **getattr(w, 'kw', {})).sum()
     g_impl = torch.autograd.grad(v_impl, ps, allow_unused=True)
     v_dense = dense_value(w).sum()
     g_dense = torch.autograd.grad(v_dense, ps, allow_unused=True)
@@ -651,9 +766,12 @@ def run_loo(cfg):
     with warnings.catch_warnings(), torch.no_grad():
         warnings.simplefilter("ignore")
         loo = gpytorch.mlls.LeaveOneOutPseudoLikelihood(w.lik, w.model)
+        if cfg.get("history"):
+            with torch.enable_grad():
+                apply_history(w, loo, cfg)
         out, A, m, y = dense_parts(w)
         pri = prior_terms(w)
-        add = [t.loss() for t in w.model.added_loss_terms()]
+        add = [t.loss() for t in Mz.registered_added_loss_terms(w.model)]
         cond = float(torch.linalg.cond(A).max())
         if not cond < 1e6:
             case.discard = "cond>1e6"
@@ -664,6 +782,7 @@ def run_loo(cfg):
             case.fail(f"loo-raises:{tag}", f"LeaveOneOutPseudoLikelihood raised {type(e).__name__}: {str(e)[:200]}")
             return case
         check_registrations(case, w)
+        check_added_registrations(case, w)
         case.lines, Bx = mll_lines(w, A, m, y, pri, add, op="loo")
         Bx = tuple(Bx)
         ye = y.expand(*Bx, y.shape[-1])
@@ -731,7 +850,7 @@ def run_sum(cfg):
             if not conds[-1] < 1e6:
                 case.discard = "cond>1e6"
                 return case
-            l, _ = mll_lines(w, A, m, y, prior_terms(w), [t.loss() for t in w.model.added_loss_terms()])
+            l, _ = mll_lines(w, A, m, y, prior_terms(w), [t.loss() for t in Mz.registered_added_loss_terms(w.model)])
             lines += l
         try:
             impl = float(smll(model(*model.train_inputs), model.train_targets))
@@ -808,9 +927,53 @@ def gen_cfgs(ctx):
     cfgs = []
     n_mll = 64 if quick else 1400
     fams = ["single"] * 5 + ["multitask"] * 2 + ["sgpr"]
+    HOPS = ["raw", "load_state_dict", "partial_state_dict", "setter", "targets"]
+
+    def decorate(c, p_hist=0.35):
+        """op-then-use history, settings cell and call-time kwargs on top of a model configuration"""
+        if rng.random() < p_hist:
+            c["history"] = rng.sample(HOPS, rng.randint(1, 3))
+        if rng.random() < 0.2:
+            c["lazy"] = False
+        if c["lik"] in ("fixed", "fixed+learned") and rng.random() < 0.3:
+            c["call_noise"] = True
+        return c
     for k in range(n_mll):
         c = Mz.random_cfg(rng, family=fams[k % len(fams)])
-        cfgs.append(("mll", c))
+        cfgs.append(("mll", decorate(c)))
+    # every way an added-loss-registering module can sit in the module tree (directly, under a gpytorch module, only
+    # below the torch ModuleList of a sum / product kernel), with and without batch
+    for _ in range(1 if quick else 10):
+        for nest in ("plain", "scale", "sum", "product", "scale(sum)"):
+            c = Mz.random_cfg(rng, family="sgpr", n_max=8)
+            c.update(nest=nest, batch=rng.choice(["none", "none", "model", "data"]))
+            c["b"] = 0 if c["batch"] == "none" else rng.randint(2, 3)
+            cfgs.append(("mll", decorate(c, 0.2)))
+    # task-major (interleaved=False) multitask models: rank-0 (distinct task noises) and rank > 0 task noise
+    for _ in range(1 if quick else 10):
+        for lrank in (0, 0, 1, "t"):
+            for ilform in ("dense", "kron"):
+                c = Mz.random_cfg(rng, family="multitask")
+                c.update(batch="none", b=0, il=False, ilform=ilform, lrank=c["t"] if lrank == "t" else lrank,
+                         n=rng.randint(1, 4))
+                c["priors"] = [p_ for p_ in c["priors"] if p_[0] != "task_noises" or c["lrank"] == 0]
+                cfgs.append(("mll", decorate(c, 0.2)))
+    # several batch dimensions
+    for _ in range(1 if quick else 8):
+        for batch, bshape in (("model", [2, 2]), ("data", [2, 2]), ("data", [2, 1, 2]), ("model", [1, 2, 2])):
+            c = Mz.random_cfg(rng, family="single", n_max=5)
+            c.update(batch=batch, b=bshape[0], bshape=bshape)
+            # (SmoothedBox on a batched scalar parameter is the known finding; with several batch dimensions its
+            #  effect is a different, transposed shift — not generated here)
+            c["priors"] = [p_ for p_ in c["priors"] if not (p_[1] == "smoothedbox" and p_[0] in ("outputscale", "constant"))]
+            cfgs.append(("mll", decorate(c, 0.3)))
+    # histories: each op on its own, on every likelihood family
+    for _ in range(1 if quick else 6):
+        for op in HOPS:
+            for fam in ("single", "multitask", "sgpr"):
+                c = Mz.random_cfg(rng, family=fam, n_max=7)
+                c["history"] = [op]
+                cfgs.append(("mll", c))
     # batched models with every prior kind on every site (covers the per-batch reduction cells deliberately)
     for site in Mz.PRIOR_SITES:
         for kind in (Mz.PRIOR_KINDS if site != "constant" else ["normal", "smoothedbox"]):
@@ -860,6 +1023,8 @@ def gen_cfgs(ctx):
     for _ in range(16 if quick else 400):
         c = Mz.random_cfg(rng, family="single", n_max=8)
         c["n"] = max(c["n"], 2)
+        if rng.random() < 0.35:
+            c["history"] = rng.sample(HOPS, rng.randint(1, 2))
         cfgs.append(("loo", c))
     for _ in range(6 if quick else 120):
         members = []
@@ -891,7 +1056,10 @@ def run_cases(ctx, cfgs, oracle):
     for c in cases:
         k = len(c.lines)
         if c.finish is not None and not c.discard:
-            c.finish(rep[p:p + k])
+            try:
+                c.finish(rep[p:p + k])
+            except Exception as e:
+                c.fail(f"raises:{c.what}:output", f"evaluating the implementation's result raised {type(e).__name__}: {str(e)[:200]}")
         p += k
     second = [c for c in cases if getattr(c, "lines2", None)]
     rep2 = oracle([l for c in second for l in c.lines2])
@@ -927,6 +1095,8 @@ def correspondence(ctx, use_driver=True):
         for k in ("registrations", "shared_instance_registrations"):
             if c.notes.get(k):
                 ctx.count("prior_" + k, c.notes[k])
+        if c.notes.get("added_loss_registrations"):
+            ctx.count("added_loss_registrations", c.notes["added_loss_registrations"])
         if c.notes.get("fd_unstable"):
             ctx.count("finite_difference_unstable_skipped", c.notes["fd_unstable"])
     ctx.notes["cells"] = cells
